@@ -57,7 +57,7 @@ fn quote(s: &str) -> String {
 
 struct Cfg { virtual_tokens: bool, bare_right: bool, lex: String, chardef: String, unk: String, feature_def: String, rewrite_def: String, corpus: String, user: String, bigrams: Vec<(String, String)>, k: usize }
 
-fn gen_cfg(rng: &mut Rng) -> Cfg {
+fn gen_cfg(rng: &mut Rng, expose: bool) -> Cfg {
     let pos = ["名詞", "動詞", "助詞"];
     let sub = ["一般", "*", "固有", "x,y"];
     let base = ["基", "*", "b2"];
@@ -88,6 +88,10 @@ fn gen_cfg(rng: &mut Rng) -> Cfg {
         let rtag = if bare_right { String::new() } else { format!("r{}:", p) };
         bigrams.push((format!("B{}:{}", p, side(rng, 'L')), format!("{}{}", rtag, side(rng, 'R'))));
     }
+    // C17's stream: four templates that expose the columns of the left- and right-rewritten features one by one
+    let (bigrams, k, bare_right) = if expose {
+        ((0..4).map(|p| (format!("L{}:%L[{}]", p, p), format!("R{}:%R[{}]", p, p))).collect::<Vec<_>>(), 4usize, false)
+    } else { (bigrams, k, bare_right) };
     let mut feature_def = String::from("UNIGRAM U0:%F[0]\nUNIGRAM U1:%F[0],%F?[1]\nUNIGRAM U2:%t\nUNIGRAM U3:%F?[3]\n");
     for (l, r) in &bigrams { feature_def.push_str(&format!("BIGRAM {}/{}\n", l, r)); }
     // rewrite rules: the left and the right side treat rows differently
@@ -174,10 +178,12 @@ fn same_files(a: &Files, b: &Files) -> bool {
     a.lex == b.lex && a.matrix == b.matrix && a.unk == b.unk && a.user == b.user && a.left == b.left && a.right == b.right && sorted_lines(&a.cost) == sorted_lines(&b.cost)
 }
 
-fn train(c: &Cfg, iters: u64) -> Option<Model> {
+fn train(c: &Cfg, iters: u64, reg: Option<f64>) -> Option<Model> {
     let config = TrainerConfig::from_readers(c.lex.as_bytes(), c.chardef.as_bytes(), c.unk.as_bytes(), c.feature_def.as_bytes(), c.rewrite_def.as_bytes()).ok()?;
     let corpus = Corpus::from_reader(c.corpus.as_bytes()).ok()?;
-    Trainer::new(config).ok()?.max_iter(iters).num_threads(1).train(corpus).ok()
+    let t = Trainer::new(config).ok()?.max_iter(iters).num_threads(1);
+    let t = match reg { Some(r) => t.regularization_cost(r), None => t };
+    t.train(corpus).ok()
 }
 
 fn conn_of(d: &vibrato::Dictionary) -> Vec<Vec<i32>> {
@@ -186,25 +192,26 @@ fn conn_of(d: &vibrato::Dictionary) -> Vec<Vec<i32>> {
 }
 
 pub fn run(prop: &str, seed: u64, n: usize, outdir: &str, _corpus: Option<&str>) -> std::io::Result<()> {
-    let report = match prop { "C14" => "c14_report", "C15" => "c15_report", "C16" => "c16_report", _ => "c18_report" };
+    let report = match prop { "C14" => "c14_report", "C15" => "c15_report", "C16" => "c16_report", "C17T" => "c17t_report", _ => "c18_report" };
+    let expose = prop == "C17T";
     let mut sh = Shards::new(prop, "From Vib Require Import Model.Base Model.Text Model.Rewriter Model.Template Check.TrnCheck.", "trncase", report);
     let mut dist: BTreeMap<String, usize> = BTreeMap::new();
     let mut samples = vec![];
     let mut master = Rng::new(seed ^ 0x7A11);
     // VERIF_SUBSEED=<case seed> re-runs exactly one case and prints the connection costs that differ
     let only: Option<u64> = std::env::var("VERIF_SUBSEED").ok().and_then(|x| x.parse().ok());
-    let mut pinned = if only.is_some() { vec![] } else { pinned_cfgs() };
+    let mut pinned = if only.is_some() || expose { vec![] } else { pinned_cfgs() };
     pinned.reverse();
     let npinned = pinned.len();
     for round in 0..(if only.is_some() { 1 } else { n + npinned }) {
         let pin = pinned.pop();
         let sub = if pin.is_some() { 1000 + round as u64 } else { only.unwrap_or_else(|| master.next()) };
         let mut rng = Rng(sub);
-        let (c, iters) = match pin { Some((c, it)) => (c, it), None => { let c = gen_cfg(&mut rng); let it = 2 + rng.below(5); (c, it) } };
+        let (c, iters) = match pin { Some((c, it)) => (c, it), None => { let c = gen_cfg(&mut rng, expose); let it = 2 + rng.below(5); (c, it) } };
         let human = format!("lex.csv={} unk.def={} feature.def={} rewrite.def={} corpus={} user.csv={} iters={}", json_str(&c.lex), json_str(&c.unk), json_str(&c.feature_def), json_str(&c.rewrite_def), json_str(&c.corpus), json_str(&c.user), iters);
         let mut flags: Vec<(String, u8)> = vec![];
         flags.push(("k3_bare_template".into(), c.bare_right as u8));
-        let mut model = match std::panic::catch_unwind(std::panic::AssertUnwindSafe(|| train(&c, iters))) { Ok(Some(m)) => m, _ => { *dist.entry("training_failed".into()).or_default() += 1; continue; } };
+        let mut model = match std::panic::catch_unwind(std::panic::AssertUnwindSafe(|| train(&c, iters, if expose { Some(1e-9) } else { None }))) { Ok(Some(m)) => m, _ => { *dist.entry("training_failed".into()).or_default() += 1; continue; } };
         *dist.entry(format!("templates_{}", if c.k >= 8 { "ge8" } else { "lt8" })).or_default() += 1;
         if c.virtual_tokens { *dist.entry("corpus_with_uncovered_tokens".into()).or_default() += 1; }
         let maxabs_of = |m: &Model| -> f64 { m.verif_merged().map(|(sets, matrix)| sets.iter().map(|s| s.0.abs()).chain(matrix.iter().map(|x| x.2.abs())).fold(0f64, f64::max)).unwrap_or(0.0) };
